@@ -6,59 +6,15 @@ import (
 	"bufio"
 	"bytes"
 	"context"
-	"encoding/binary"
 	"errors"
 	"io"
 	"os"
 
 	"github.com/allegro/bigcache/v3"
 	"github.com/ipfs/go-cid"
-	"github.com/rpcpool/yellowstone-faithful/compactindexsized"
 	hugecache "github.com/rpcpool/yellowstone-faithful/huge-cache"
 	"github.com/rpcpool/yellowstone-faithful/indexes"
 )
-
-func c01CidBytes(i int) []byte {
-	b := []byte{0x01, 0x71, 0x12, 0x20}
-	for j := 0; j < 32; j++ {
-		b = append(b, byte(0x40+7*i+j))
-	}
-	return b
-}
-
-func c01Cid(i int) cid.Cid {
-	c, err := cid.Cast(c01CidBytes(i))
-	verifAssert(err == nil, "C01: harness CID does not parse")
-	return c
-}
-
-// c01Section encodes one CARv1 section: uvarint(len(cid)+len(data)) ‖ cid ‖ data.
-func c01Section(cidBytes, data []byte) []byte {
-	var lb [binary.MaxVarintLen64]byte
-	n := binary.PutUvarint(lb[:], uint64(len(cidBytes)+len(data)))
-	out := append([]byte{}, lb[:n]...)
-	out = append(out, cidBytes...)
-	return append(out, data...)
-}
-
-// ---- cut: the hash index (property C04) is a recorder: Lookup returns what Insert stored.
-type c01KV struct{ key, value []byte }
-
-var c01Inserted []c01KV
-
-func c01Model_BuilderInsert(b *compactindexsized.Builder, key []byte, value []byte) error {
-	c01Inserted = append(c01Inserted, c01KV{append([]byte{}, key...), append([]byte{}, value...)})
-	return nil
-}
-
-func c01Model_DBLookup(db *compactindexsized.DB, key []byte) ([]byte, error) {
-	for _, kv := range c01Inserted {
-		if len(kv.key) == len(key) && bytes.Equal(kv.key, key) {
-			return append([]byte{}, kv.value...), nil
-		}
-	}
-	return nil, compactindexsized.ErrNotFound
-}
 
 // ---- cut: bigcache is a map (never evicts; may also be switched off to model eviction).
 var (
